@@ -165,29 +165,40 @@ variable {K : Type} [Add K] [Sub K] [Mul K] [Div K] [Neg K] [Zero K] [One K] [BE
 theorem get_inheritDict (d : Dict) (k : String) (h : k ∉ nonPropagating) : Dict.get (inheritDict d) k = Dict.get d k :=
   Dict.get_eraseAll_ne _ _ _ h
 
+theorem get_validAttrs (cfg : Cfg K) (a : Dict) (k : String) (hk : k ≠ "transform") :
+    Dict.get (validAttrs cfg a) k = Dict.get a k := by
+  unfold validAttrs
+  split
+  · split
+    · exact Dict.get_erase_ne' _ _ _ hk
+    · rfl
+  · rfl
+
 /-- **Inheritance, one level.** For every property that propagates (everything but
-    preserveAspectRatio, viewBox, id, class, clip-path): the element's computed value is its own
-    compiled value when it has one, else its parent's computed value — whatever the tag. -/
-theorem C14_inheritance (styles : Dict) (f : Frame K) (tag : String) (attrs : List (String × String))
-    (k : String) (hk : k ∉ nonPropagating) :
-    Dict.get (compileVals styles f tag attrs).d k =
+    preserveAspectRatio, viewBox, id, class, clip-path; `transform` accumulates instead): the
+    element's computed value is its own compiled value when it has one, else its parent's
+    computed value — whatever the tag. -/
+theorem C14_inheritance (cfg : Cfg K) (styles : Dict) (f : Frame K) (tag : String) (attrs : List (String × String))
+    (k : String) (hk : k ∉ nonPropagating) (ht : k ≠ "transform") :
+    Dict.get (compileVals cfg styles f tag attrs).d k =
       (match Dict.get (compileAttrs styles f.vals.d tag attrs) k with
        | some v => some v
        | none => Dict.get f.vals.d k) := by
   unfold compileVals
   simp only []
-  rw [Dict.get_update_rev, get_inheritDict _ _ hk]
+  rw [Dict.get_update_rev, get_inheritDict _ _ hk, get_validAttrs cfg _ k ht]
   rfl
 
 /-- the scope an element passes to its children keeps every computed value except the geometry
-    keys that `svg` and `use` strip -/
+    keys that `svg` and `use` strip (and `display`, which a zero-sized nested svg sets to none) -/
 theorem dispatch_keeps (cfg : Cfg K) (f : Frame K) (vals : Vals K) (tag : String) (k : String)
-    (hk : k ∉ ["x", "y", "width", "height"]) :
+    (hk : k ∉ ["x", "y", "width", "height"]) (hd : k ≠ "display") :
     Dict.get (dispatch cfg f vals tag).1.vals.d k = Dict.get vals.d k := by
   unfold dispatch
   repeat' split
   all_goals first
     | rfl
+    | (simp only [Dict.get_set]; simp [Ne.symm hd]; done)
     | (rename_i e
        unfold svgEnter at e
        simp only [] at e
@@ -206,14 +217,14 @@ theorem dispatch_keeps (cfg : Cfg K) (f : Frame K) (vals : Vals K) (tag : String
 /-- **Inheritance, through any container.** A paint property the element does not set is handed
     to its children exactly as the element received it — through g, svg, defs, use alike. -/
 theorem C14_unset_property_passes_through (cfg : Cfg K) (styles : Dict) (f : Frame K) (tag : String)
-    (attrs : List (String × String)) (k : String) (hk : k ∉ nonPropagating)
-    (hg : k ∉ ["x", "y", "width", "height"])
+    (attrs : List (String × String)) (k : String) (hk : k ∉ nonPropagating) (ht : k ≠ "transform")
+    (hg : k ∉ ["x", "y", "width", "height"]) (hd : k ≠ "display")
     (hunset : Dict.get (compileAttrs styles f.vals.d tag attrs) k = none) :
     Dict.get (enter cfg styles f tag attrs).1.vals.d k = Dict.get f.vals.d k := by
   unfold enter
   split
   · rfl
-  · rw [dispatch_keeps cfg f _ tag k hg, C14_inheritance styles f tag attrs k hk, hunset]
+  · rw [dispatch_keeps cfg f _ tag k hg hd, C14_inheritance cfg styles f tag attrs k hk ht, hunset]
 
 end
 
